@@ -32,6 +32,13 @@ def matrix_exec(rng, types, passes=2, frac=1.0):
                 continue
             how = rng.choice(HOWS)
             L.append("look %s %d %d %d" % (how, t, c, rng.randrange(MEMBERS[c])))
+    # members of one (type, class) pair looked up back to back inside a single try block, in several orders (present after empty,
+    # empty after present, repeats): no other lookup happens in between
+    for (t, c) in rng.sample(cells, min(len(cells), 60)):
+        if MEMBERS[c] >= 2:
+            ms = [rng.randrange(MEMBERS[c]) for _ in range(rng.choice([2, 3, 5]))] + list(range(MEMBERS[c]))
+            rng.shuffle(ms)
+            L.append("lookseq %s %d %d %s" % (rng.choice(["meth", "tmeth"]), t, c, " ".join(map(str, ms[:12]))))
     return L
 
 
